@@ -176,6 +176,33 @@ class Closure:
         return 'Closure(%s)' % self.span
 
 
+class Coro:
+    """A coroutine (async block / async fn body) value: captured upvars, resume state and the
+    locals saved across suspension points (`((*c) as variant#N).K`)."""
+    __slots__ = ('span', 'fn', 'caps', 'state', 'saved')
+
+    def __init__(self, span, fn, caps, state=0, saved=None):
+        self.span = span
+        self.fn = fn              # MirFn of the poll function
+        self.caps = tuple(caps)
+        self.state = state
+        self.saved = dict(saved or {})
+
+    def __repr__(self):
+        return 'Coro(%s,state=%r)' % (self.span, self.state)
+
+
+class ReadyFut:
+    """A future of a stubbed component: ready with `value` at its first poll."""
+    __slots__ = ('value',)
+
+    def __init__(self, value):
+        self.value = value
+
+    def __repr__(self):
+        return 'ReadyFut(%r)' % (self.value,)
+
+
 class FnItem:
     __slots__ = ('path',)
 
